@@ -190,6 +190,10 @@ pub fn gen(c: &Chain, cfg: &Cfg, m: &Menu, rng: &mut Rng, kind: &str) -> Option<
             json!({"k": "set_legacy", "entries": es})
         }
         "deliver" => json!({"k": "deliver", "d": if rng.chance(9, 10) { "kusd" } else { "usei" }, "a": amount(rng, 0, m.amax)}),
+        "fund_disp" => json!({"k": "fund", "to": "dispatcher", "d": *rng.pick(&["usei", "usei", "kusd", "kusd", "ufor"]), "a": match rng.below(4) { 0 => 0, 1 => 1, _ => amount(rng, 0, m.amax) }}),
+        "disp_swap" => exec("hub", "dispatcher", json!({"k": "swap_to_reward_denom", "bsei_total_bonded": match rng.below(4) { 0 => 0, _ => amount(rng, 0, m.amax) },
+            "stsei_total_bonded": match rng.below(4) { 0 => 0, _ => amount(rng, 0, m.amax) }}), json!([])),
+        "disp_dispatch" => exec("hub", "dispatcher", json!({"k": "dispatch_rewards"}), json!([])),
         "index_update" => exec("dispatcher", "reward", json!({"k": "update_global_index"}), json!([])),
         "mint_b" => exec("hub", "bsei", json!({"k": "mint", "recipient": u, "amount": 1 + rng.below(m.amax)}), json!([])),
         "burn_b" => exec("hub", "bsei", json!({"k": "burn", "amount": amount(rng, tokbal(c, "bsei", "hub"), m.amax)}), json!([])),
